@@ -157,6 +157,8 @@ def discovered_calls(cls_key):
 
     cls = {'T': gemdat.transitions.Transitions, 'J': gemdat.jumps.Jumps, 'M': gemdat.metrics.TrajectoryMetrics}[cls_key]
     calls = list(REAL_CALLS[cls_key])
+    if cls_key == 'J' and _TIER.get('tier') == 'quick':
+        calls = [c for c in calls if not (c[0] == 'split' and c[1] == (2,)) and not (c[0] == 'to_graph' and 'min_e_act' in c[2])]
     listed = {c[0] for c in calls}
     for name, attr in sorted(vars(cls).items()):
         if name in listed or impl.lru_of(attr) is None:
